@@ -1,6 +1,6 @@
 (* C07 model runner.
    lex <chunks>        chunks = "." (no chunk) or hex|hex|... ("-" = empty chunk)
-     -> OK <token_count> <tok;tok;...>   tok = Class:data:line:col:quote:ml:code:value:extent
+     -> OK <token_count> <tok;tok;...>   tok = Class:data:line:col:quote:ml:code:value:extent:strvalue
         (quote hex or -, ml = N | S<hex>, value = num/den as [-]0x<hex> | E<err> | _ )
      -> ERR <name>
    re <matcher> <hex>  matcher = index into the regenerated table -> M <matchedhex> | N   (scanner vs re) *)
@@ -50,7 +50,8 @@ let render_tok t =
   String.concat ":" [kind_name t.t_kind; hex_of_bytes t.t_data; str_of_z t.t_line; str_of_z t.t_col;
                      hex_of_bytes t.t_quote;
                      (match t.t_ml with None -> "N" | Some e -> "S" ^ hex_of_bytes e);
-                     hex_of_bytes (tok_code t); v; hex_of_bytes t.t_ext]
+                     hex_of_bytes (tok_code t); v; hex_of_bytes t.t_ext;
+                     (match t.t_kind with KString -> hex_of_bytes (tok_str_value t) | _ -> "-")]
 let handle fields =
   match fields with
   | ["lex"; cs] ->
